@@ -38,6 +38,27 @@ def play_of(prog, gs):
     return None
 
 
+def recorded_boards(I, prog, pl, via_accessor=None):
+    """The earlier boards of the turn held by the PlayPhase value `pl`: the field this analysis knows, or - when the
+    representation differs (or on request) - what the public accessor PlayPhase::previous_piece_boards returns (its MIR
+    interpreted on the value).  A Seq of boards, or None."""
+    if via_accessor is None:
+        via_accessor = not inputs.play_phase_by_layout(prog)
+    if not via_accessor:
+        return fld(prog, 'engine::PlayPhase', pl, 'previous_piece_boards_this_move')
+    fn = prog.one('PlayPhase::previous_piece_boards')
+    if fn is None:
+        return None
+    st = State({})
+    r, st2 = I.call_fn(fn, [inputs.ref_to(I, st, 'pp', pl)], st)
+    if r is None or st2 is None:
+        return None
+    v = I.deref_all(st2, r)
+    if isinstance(v, Seq):
+        return Seq([(it[0], I.deref_all(st2, it[1])) if it[0] == 'elem' else it for it in v.items])
+    return v
+
+
 def affine_of(v):
     """(base, offset) of a move-number value"""
     if isinstance(v, Term) and v.kind == 'affine':
@@ -105,7 +126,7 @@ def check_transitions(ctx, prog, I, moves_sample, status_modes):
                     if pl is None:
                         v('phase', 'successor is not in the play phase')
                         continue
-                    prev = fld(prog, PP, pl, 'previous_piece_boards_this_move')
+                    prev = recorded_boards(I, prog, pl)
                     want_len = 0 if ends else step + 1
                     ok = isinstance(prev, Seq) and prev.concrete() and len(prev.items) == want_len
                     ctx.ob('[%s] step counter afterwards = %d' % (mode, want_len), ok)
@@ -168,15 +189,21 @@ def check_step_is_len(ctx, prog, I):
 def check_overflow_sites(ctx, I, rule_prop, prog=None):
     """K1: move number arithmetic. The finding is keyed by operator and operand type, so that the known finding (overflow of
     a usize at usize::MAX) does not cover a narrower counter."""
-    from .rules_panic import overflow_type, turn_end_scope
-    for (fname, at, msg), detail in sorted(I.asserts_bad.items()):
-        if msg == 'Overflow' and (fname.endswith('GameState::pass') or fname.endswith('GameState::move_piece')):
-            ty = overflow_type(prog, fname, at) if prog is not None else 'Add'
-            scope = turn_end_scope(I, (fname, at, msg))
-            ctx.ob('%s: move_number + 1 cannot overflow (%s)' % (fname, ty), False, sample=True)
-            ctx.finding('PANIC-SITE', fname, 'Overflow(%s)%s' % (ty, scope),
-                        'move_number + 1 overflows (%s) when the move number is at the maximum of its type and %s'
-                        % (ty, 'Silver\'s turn ends' if not scope else 'an action is applied in these situations too: ' + scope[6:]), at=at)
+    from .rules_panic import attributed, INVARIANTS
+    for key, detail in sorted(I.asserts_bad.items()):
+        fname, at, msg = key
+        if msg != 'Overflow' or any(fname.endswith(suf) and k == msg for (suf, k) in INVARIANTS):
+            continue
+        if not fname.startswith('engine::'):
+            continue
+        for efn, inst in attributed(I, key, prog):
+            ty = inst[len('Overflow('):].split(')')[0] if inst.startswith('Overflow(') else '?'
+            scope = inst.split(')', 1)[1] if ')' in inst else ''
+            ctx.ob('%s: move_number + 1 cannot overflow (%s)' % (efn, ty), False, sample=True)
+            ctx.finding('PANIC-SITE', efn, inst,
+                        'move_number + 1 overflows (%s) when the move number is at the maximum of its type and %s%s'
+                        % (ty, 'Silver\'s turn ends' if not scope else 'an action is applied in these situations too: ' + scope[6:],
+                           '' if efn == fname else ' [arithmetic located in %s]' % fname), at=at)
 
 
 # ------------------------------------------------------------------------------------------------ C12
@@ -292,7 +319,7 @@ def check_recorded_boards(ctx, prog, I, mv):
             gsv = inputs.play_state(prog, gold, k, trapped='sym')
             r = take(I, prog, gsv, move_action(prog, s, d))
             pl = play_of(prog, r)
-            prev = fld(prog, PP, pl, 'previous_piece_boards_this_move')
+            prev = recorded_boards(I, prog, pl)
             want = [inputs.piece_board(prog, 'prev%d.' % i) for i in range(k)] + [inputs.piece_board(prog, '')]
             ok = isinstance(prev, Seq) and prev.concrete() and [it[1] for it in prev.items] == want
             ctx.ob('[%s step %d] recorded boards afterwards = old list ++ [current board]' % ('gold' if gold else 'silver', k), ok,
@@ -300,6 +327,18 @@ def check_recorded_boards(ctx, prog, I, mv):
             if not ok:
                 ctx.finding('C14', fn, 'record:s%d' % k,
                             'after a step at step %d the recorded boards are not [earlier boards in order, the board before this step]' % k)
+            # the public accessor reports exactly that list
+            try:
+                acc = recorded_boards(I, prog, pl, via_accessor=True)
+            except Undecided:
+                acc = None
+            ok = isinstance(acc, Seq) and acc.concrete() and [it[1] for it in acc.items] == want
+            ctx.ob('[%s step %d] PlayPhase::previous_piece_boards() of the successor = old list ++ [current board]'
+                   % ('gold' if gold else 'silver', k), ok, sample=(k == 1 and not gold))
+            if not ok:
+                ctx.finding('C14', prog.one('PlayPhase::previous_piece_boards') or 'PlayPhase::previous_piece_boards', 'accessor:s%d' % k,
+                            'after a step at step %d PlayPhase::previous_piece_boards() does not report [earlier boards in order, '
+                            'the board before this step]' % k)
     fn2 = prog.one('GameState::piece_board_for_step')
     if not ctx.anchor('fn piece_board_for_step', fn2 is not None):
         return
